@@ -19,6 +19,7 @@ type PropSel struct {
 	Funcs string `json:"funcs"` // regexp on contract key
 	Kinds string `json:"kinds"` // regexp on obligation kind ("" = all)
 	Names string `json:"names"` // optional regexp that the obligation name must match (find)
+	Not   string `json:"not_kinds"` // optional regexp on obligation kinds to leave to another property's check
 }
 
 type BoundedDef struct {
@@ -189,6 +190,7 @@ func runProperty(ld *Loader, verif, prop, tier, dir string, timeout, workers int
 	var results []*FuncResult
 	kindRe := map[*FuncResult][]*regexp.Regexp{}
 	nameRe := map[*FuncResult][]*regexp.Regexp{}
+	notRe := map[*FuncResult][]*regexp.Regexp{}
 	seen := map[string]*FuncResult{}
 	csrc := map[string]string{}
 	var assumptions []string
@@ -212,6 +214,10 @@ func runProperty(ld *Loader, verif, prop, tier, dir string, timeout, workers int
 		if s.Names != "" {
 			nre = regexp.MustCompile(s.Names)
 		}
+		var xre *regexp.Regexp
+		if s.Not != "" {
+			xre = regexp.MustCompile("^(" + s.Not + ")$")
+		}
 		add := func(key string, mk func() *FuncResult) {
 			id := s.Pkg + " " + key
 			fr, ok := seen[id]
@@ -222,6 +228,7 @@ func runProperty(ld *Loader, verif, prop, tier, dir string, timeout, workers int
 			}
 			kindRe[fr] = append(kindRe[fr], kre)
 			nameRe[fr] = append(nameRe[fr], nre)
+			notRe[fr] = append(notRe[fr], xre)
 		}
 		matched := 0
 		for _, key := range p.Contracts.Order {
@@ -252,6 +259,9 @@ func runProperty(ld *Loader, verif, prop, tier, dir string, timeout, workers int
 		for _, o := range fr.Obls {
 			ok := false
 			for i, re := range kindRe[fr] {
+				if xr := notRe[fr][i]; xr != nil && xr.MatchString(o.Kind) {
+					continue
+				}
 				if re == nil || re.MatchString(o.Kind) || o.Kind == "cover" || o.Kind == "subset" || o.Kind == "exists" {
 					if nr := nameRe[fr][i]; nr == nil || nr.MatchString(o.Name) || o.Kind == "cover" || o.Kind == "subset" || o.Kind == "exists" {
 						ok = true
